@@ -2,6 +2,9 @@ import EaselModel.Core.Proto
 import EaselModel.Msafile.Basic
 import EaselModel.Msafile.AbcTables
 import EaselModel.Msafile.Afa
+import EaselModel.Msafile.A2m
+import EaselModel.Msafile.Clustal
+import EaselModel.Msafile.Psiblast
 import EaselModel.Msafile.Dump
 /-! Line-protocol driver for the C01 model: `parse fmt=… abc=… src=… ps=… hex=…` (source and page size are irrelevant
     to the model: it sits on the abstract line reader).  Formats / modes without a model answer `unmodelled`. -/
@@ -25,6 +28,14 @@ def parseOp (ws : List String) : String :=
     let lines := splitLines bytes
     if fmt == "afa" then
       "open=ok fmt=afa abc=" ++ abcName abc ++ readAll (afaRead (afaCfg abc)) 64 lines
+    else if fmt == "a2m" then
+      "open=ok fmt=a2m abc=" ++ abcName abc ++ readAll (a2mRead (a2mCfg abc)) 64 lines
+    else if fmt == "clustal" then
+      "open=ok fmt=clustal abc=" ++ abcName abc ++ readAll (clustalRead false (clustalCfg abc)) 64 lines
+    else if fmt == "clustallike" then
+      "open=ok fmt=clustallike abc=" ++ abcName abc ++ readAll (clustalRead true (clustalCfg abc)) 64 lines
+    else if fmt == "psiblast" then
+      "open=ok fmt=psiblast abc=" ++ abcName abc ++ readAll (psiblastRead (psiblastCfg abc)) 64 lines
     else "unmodelled"
   | _, _, _ => "unmodelled"
 
